@@ -575,7 +575,13 @@ Section Ops.
     assert (Nat.eqb (List.length args) 1) ;;;
     vs <- eval_args args ;;
     match vs with
-    | [VStr s] => ev (VSym s None)
+    | [VStr s] =>
+        (* Symbol(s) carries the default tuple line_info: an assertion failing on the
+           symbol itself makes print_error raise a TypeError instead of WalEvalError *)
+        fun st => match ev (VSym s None) st with
+                  | Er EEval st' => Er EOther st'
+                  | r => r
+                  end
     | [VSym n st] => ev (VSym n st)
     | _ => ret VNone
     end.
@@ -653,7 +659,11 @@ Section Ops.
   Definition op_all_scopes (args : list val) : M val :=
     assert (negb (Nat.eqb (List.length args) 0)) ;;;
     match args with
-    | (VList true _ as body) :: _ =>
+    | body :: _ =>
+        assert (match body with
+                | VSym _ _ | VInt _ | VBool _ | VStr _ | VList _ _ | VFloat _ => true
+                | _ => false
+                end) ;;;
         st <- get_st ;;
         let prev_scope := st_scope st in
         prev_cs <- read_global "CS" ;;
